@@ -9,6 +9,8 @@ from gens import docs
 
 ROOT = os.path.dirname(os.path.dirname(os.path.dirname(os.path.abspath(__file__))))
 _workers = {}
+_calls = 0
+MODULE_API_EVERY = int(os.environ.get("VERIF_MODULE_API_EVERY", "25"))
 
 
 def fast_loads(text, include_position=False, include_comments=False):
@@ -17,6 +19,12 @@ def fast_loads(text, include_position=False, include_comments=False):
     share of its cases through the plain module-level API"""
     from mappyfile.parser import Parser
     from mappyfile.transformer import MapfileToDict
+    global _calls
+    _calls += 1
+    if _calls % MODULE_API_EVERY == 0:
+        # a share of all calls goes through the public module-level entry point (whatever it caches or shares)
+        import mappyfile
+        return mappyfile.loads(text, expand_includes=False, include_position=include_position, include_comments=include_comments)
     key = (include_position, include_comments)
     if key not in _workers:
         _workers[key] = (Parser(expand_includes=False, include_comments=include_comments),
@@ -30,15 +38,14 @@ def loads_plain(text):
 
 
 def same(a, b):
-    """structural equality, ints and floats compared numerically"""
+    """structural equality; ints and floats are different values"""
     if isinstance(a, dict) and isinstance(b, dict):
         return list(a.keys()) == list(b.keys()) and all(same(a[k], b[k]) for k in a)
     if isinstance(a, list) and isinstance(b, list):
         return len(a) == len(b) and all(same(x, y) for x, y in zip(a, b))
     if isinstance(a, bool) or isinstance(b, bool):
         return a is b
-    if isinstance(a, (int, float)) and isinstance(b, (int, float)):
-        return a == b
+    # numbers keep the type their spelling has (2 is an int, 2.0 a float): the contract says nothing is retyped
     return type(a) is type(b) and a == b
 
 
